@@ -1,15 +1,69 @@
 /-
   C04 — a tick patch replays to exactly the state the tick produced.
-  PROPERTY THEOREMS ONLY. Models: Model/Graph.lean (apply), Model/Diff.lean (diff, sort key);
+  PROPERTY THEOREMS ONLY. Models: Model/Graph.lean (apply), Model/Diff.lean (diff, sort key),
+  Model/Patch.lean (`WarpTickPatchV1::new`, digest pre-image, in-place application);
   extracted table: Generated/OpTable.lean (phase ranks read from `WarpOp::sort_key`).
 
   The engine's tick patch IS `diff_state(pre, post)` (engine_impl.rs: `commit_with_receipt`,
   `commit_with_state`), so "the patch replays to the post-state" is the diff/apply law below.
 -/
-import EchoVerif.Lemmas.WfCheck
+import EchoVerif.Lemmas.WfiCheck
+import EchoVerif.Lemmas.PatchCanon
 
 namespace EchoVerif.C04
 open EchoVerif EchoVerif.Graph SMap
+
+/-- **diff_apply** (the replay law at FULL strength): for ALL fully well-formed states `a`, `b`
+    (`WFI`: sorted maps, attachments only on existing owners, instance table and store set have the
+    same keys, every instance stored under its own warp id) — ANY instance tables: instances created
+    (with or without OpenPortal canonicalisation, portal chains), deleted, re-rooted, re-parented,
+    portals opened / retargeted / removed, and every node/edge/attachment edit inside new, surviving
+    and deleted instances — if applying `diff_state(a, b)` to `a` succeeds, the result is exactly `b`.
+    The one case in which the op loop itself ends in a state different from `b` (a NEW portal whose
+    parent-slot edge is re-parented in the same diff, so the re-emitted SetAttachment is skipped) is
+    proved to be rejected by `validate_portal_invariants`. -/
+theorem diff_apply (a b c : WState) (ha : WFI a) (hb : WFI b)
+    (h : applyOps a (diffState a b) = .ok c) : c = b := diff_apply_full ha hb h
+
+/-- **diff_apply_total**: the outcome of replaying the delta is `b` or a typed error — never a
+    third state. -/
+theorem diff_apply_total (a b : WState) (ha : WFI a) (hb : WFI b) :
+    applyOps a (diffState a b) = .ok b ∨ ∃ e, applyOps a (diffState a b) = .error e := by
+  cases h : applyOps a (diffState a b) with
+  | error e => exact Or.inr ⟨e, rfl⟩
+  | ok c => rw [diff_apply a b c ha hb h]; exact Or.inl rfl
+
+/-- **diff_apply_ok**: the replay is `.ok` (and then yields `b`) exactly when no op of the diff fails
+    in sequence and, if some op touched the portal topology, the final portal validation passes —
+    nothing else can go wrong. -/
+theorem diff_apply_ok (a b : WState) (ha : WFI a) (hb : WFI b) :
+    applyOps a (diffState a b) = .ok b ↔
+      ∃ c t, applyLoop a false (diffState a b) = .ok (c, t) ∧
+        (t = true → validatePortalInvariants c = .ok ()) := by
+  constructor
+  · intro h
+    obtain ⟨t, hl⟩ := applyOps_loop h
+    refine ⟨b, t, hl, ?_⟩
+    intro ht; subst ht; exact applyOps_validated h hl
+  · rintro ⟨c, t, hl, hv⟩
+    have h : applyOps a (diffState a b) = .ok c := by
+      simp only [applyOps, hl]
+      cases t with
+      | false => rfl
+      | true => simp only [if_true, hv rfl]
+    have e := diff_apply a b c ha hb h
+    rw [e] at h; exact h
+
+/-- **diff_apply_ok_validates**: a successful replay of a diff containing an instance-level op
+    certifies that `b` itself satisfies the portal invariants (no orphan instance, no dangling
+    portal) — a `b` violating them can only produce a typed error. -/
+theorem diff_apply_ok_validates (a b : WState) (ha : WFI a) (hb : WFI b)
+    (h : applyOps a (diffState a b) = .ok b) (hi : ∃ o ∈ diffState a b, o.isSkel = false) :
+    validatePortalInvariants b = .ok () := by
+  obtain ⟨t, hl⟩ := applyOps_loop h
+  have ht : t = true := applyLoop_flag _ a false b t hl (Or.inr hi)
+  subst ht
+  exact applyOps_validated h hl
 
 /-- **diff_apply_skeleton** (the replay law; full strength for every pair of well-formed states
     with the same instance table and store set — every node/edge/attachment edit incl. node
@@ -107,6 +161,48 @@ theorem apply_ok_prefix (s c : WState) (l1 l2 : List Op) (h : applyOps s (l1 ++ 
       | ok s' => rw [hx] at h; simp only at h ⊢; exact ih s' _ h
   exact key l1 s false hl
 
+/-- **apply_error_not_success** (`apply_to_state` as the code has it — IN PLACE): the in-place run
+    reports success exactly when `apply_ops_to_state` returns `Ok` (then the target holds the result),
+    and reports error `e` exactly when it returns `Err(e)`; a failed application is never reported
+    as success. -/
+theorem apply_error_not_success (s : WState) (l : List Op) :
+    (∀ c, applyOps s l = .ok c ↔ applyInPlace s false l = (c, none)) ∧
+    (∀ e, applyOps s l = .error e ↔ ∃ s', applyInPlace s false l = (s', some e)) :=
+  applyInPlace_result s l
+
+/-- **apply_error_partial_state** (what the code does on error, NOT atomic): when op `o` fails, the
+    `&mut` target is left as the successful prefix made it — partially modified — and the error
+    reported is that op's error. The callers inherit this: `apply_to_worldline_state` mutates
+    `state.warp_state` directly, `Engine::jump_to_tick` resets `self.state` to U0 and replays in place
+    (after a failed jump the engine holds U0 + the successful prefix, with `Err(InternalCorruption)`),
+    settlement applies to `frontier.state_mut()`. Each of them returns the error — none reports
+    success — but none restores the previous state. -/
+theorem apply_error_partial_state (s : WState) (l : List Op) (e : Err)
+    (h : applyLoop s false l = .error e) :
+    ∃ l1 o l2 s1 t1, l = l1 ++ o :: l2 ∧ applyLoop s false l1 = .ok (s1, t1) ∧
+      applyOp s1 o = .error e ∧ applyInPlace s false l = (s1, some e) :=
+  applyInPlace_error l s false e h
+
+/-- **patch_new_canonical**: `WarpTickPatchV1::new` (BTreeMap keyed by the extracted
+    `WarpOp::sort_key` ranks, last wins) is idempotent, and order-independent on every input in which
+    ops sharing a sort key are identical (in particular duplicate-free input); it invents no op. -/
+theorem patch_new_canonical :
+    (∀ l : List Op, canonOps (canonOps l) = canonOps l) ∧
+    (∀ l1 l2 : List Op, l1.Perm l2 → l1.Pairwise Swappable → canonOps l1 = canonOps l2) ∧
+    (∀ (l : List Op) (o : Op), o ∈ canonOps l → o ∈ l) :=
+  ⟨canonOps_idem, fun _ _ hp hd => canonOps_perm hp hd, fun _ _ h => canonOps_mem h⟩
+
+/-- **patch_new_fixes_sorted**: an op list already strictly sorted by the canonical key (no two ops
+    share a key) is left untouched by `new` — so `canon (diff a b) = diff a b` reduces to "a diff never
+    contains two ops with the same sort key" (checked per case by the oracle, not proved). -/
+theorem patch_new_fixes_sorted (l : List Op) (h : StrictKeys l) : canonOps l = l :=
+  canonOps_of_strict l h
+
+/-- the whole patch: `new` of an already-canonical patch's fields is the same patch. -/
+theorem patch_new_idem (policy rulePack status : Nat) (ins outs : List Slot) (ops : List Op) :
+    (Patch.new policy rulePack status ins outs (Patch.new policy rulePack status ins outs ops).ops).ops
+      = (Patch.new policy rulePack status ins outs ops).ops := canonOps_idem ops
+
 /-! ### non-vacuity: a concrete re-parented edge that carries an attachment
     (the case that replayed wrongly before the `fix:` commit in tick_patch.rs) -/
 
@@ -130,5 +226,51 @@ example : diffState exA exB =
 example : (match applyOps exA (diffState exA exB) with
     | .ok c => decide (c = exB)
     | .error _ => false) = true := by decide
+
+/-! ### non-vacuity of `diff_apply`: instances created through OpenPortal, deleted, re-rooted -/
+
+def exC : WState :=
+  { stores := [(1, { nodes := [(1, 7), (2, 7)], edges := [(9, { src := 1, dst := 2, ty := 5 })],
+                     nodeAtt := [(2, .descend 3)], edgeAtt := [] }),
+               (3, { nodes := [(1, 7)], edges := [], nodeAtt := [], edgeAtt := [] })],
+    instances := [(1, { warp := 1, root := 1, parent := none }),
+                  (3, { warp := 3, root := 1, parent := some (AttKey.nodeAlpha 1 2) })] }
+
+/-- instance 3 deleted (slot cleared), instance 4 opened on edge 9 (with a second node), instance 1 re-rooted. -/
+def exD : WState :=
+  { stores := [(1, { nodes := [(1, 7), (2, 7)], edges := [(9, { src := 1, dst := 2, ty := 5 })],
+                     nodeAtt := [], edgeAtt := [(9, .descend 4)] }),
+               (4, { nodes := [(1, 8), (2, 8)], edges := [], nodeAtt := [(2, .atom 4 [1])], edgeAtt := [] })],
+    instances := [(1, { warp := 1, root := 2, parent := none }),
+                  (4, { warp := 4, root := 1, parent := some (AttKey.edgeBeta 1 9) })] }
+
+/-- as `exD`, but the parent-slot edge 9 is also re-parented: the exceptional case. -/
+def exE : WState :=
+  { stores := [(1, { nodes := [(1, 7), (2, 7)], edges := [(9, { src := 2, dst := 2, ty := 5 })],
+                     nodeAtt := [], edgeAtt := [(9, .descend 4)] }),
+               (4, { nodes := [(1, 8), (2, 8)], edges := [], nodeAtt := [(2, .atom 4 [1])], edgeAtt := [] })],
+    instances := [(1, { warp := 1, root := 2, parent := none }),
+                  (4, { warp := 4, root := 1, parent := some (AttKey.edgeBeta 1 9) })] }
+
+example : WFI exC := wfiB_sound exC (by decide)
+example : WFI exD := wfiB_sound exD (by decide)
+example : WFI exE := wfiB_sound exE (by decide)
+example : diffState exC exD =
+    [.openPortal (AttKey.edgeBeta 1 9) 4 1 (.empty 8), .upsertInstance { warp := 1, root := 2, parent := none },
+     .deleteInstance 3, .upsertNode 4 2 8, .setAtt (AttKey.nodeAlpha 1 2) none,
+     .setAtt (AttKey.nodeAlpha 4 2) (some (.atom 4 [1]))] := by decide
+example : (match applyOps exC (diffState exC exD) with
+    | .ok c => decide (c = exD)
+    | .error _ => false) = true := by decide
+example : (match applyOps exD (diffState exD exC) with
+    | .ok c => decide (c = exC)
+    | .error _ => false) = true := by decide
+/-- the exceptional case really ends in the typed portal error (never in a third state). -/
+example : (match applyOps exC (diffState exC exE) with
+    | .ok _ => false
+    | .error e => decide (e = .portalInvariant)) = true := by decide
+/-- `new` dedupes by sort key, last wins, whatever the input order. -/
+example : canonOps [.upsertNode 1 2 7, .setAtt (AttKey.nodeAlpha 1 2) none, .upsertNode 1 2 8, .deleteNode 1 2]
+    = [.deleteNode 1 2, .upsertNode 1 2 8, .setAtt (AttKey.nodeAlpha 1 2) none] := by decide
 
 end EchoVerif.C04
